@@ -208,7 +208,7 @@ const TYPES: &[(&str, Runner)] = &[
     ("node.Signed<SessionId>", rand_ty!(node::Signed<node::SessionId>)),
 ];
 
-fn check(case: &Case, st: &mut Stats) -> Result<(), String> {
+pub fn check(case: &Case, st: &mut Stats) -> Result<(), String> {
     let (name, run) = TYPES[case.ty % TYPES.len()];
     let mut ch = Choices::new(case.choices.clone());
     let out = run(&mut ch).map_err(|e| format!("{name}: {e}"))?;
@@ -425,7 +425,7 @@ fn gen_scalar_tree(ch: &mut Choices, desc: &prost_reflect::MessageDescriptor, de
     out
 }
 
-fn check_pack(case: &PackCase, st: &mut Stats) -> Result<(), String> {
+pub fn check_pack(case: &PackCase, st: &mut Stats) -> Result<(), String> {
     let desc = scalar_desc();
     let mut ch = Choices::new(case.choices.clone());
     let tree = gen_scalar_tree(&mut ch, &desc, 0);
@@ -523,4 +523,29 @@ pub fn main(env: &Env) -> i32 {
         &["not generated because proto_fmt.rs documents them as unsupported rather than normalised: a singular field occurring several times, unknown fields, maps, implicit-presence fields"],
         parts,
     )
+}
+
+/// libFuzzer bridge: the first choice selects the type, the rest drive the value generator.
+pub fn fuzz_gen(ch: &mut Choices) -> Case {
+    let ty = ch.below(TYPES.len());
+    let mut choices = vec![];
+    for _ in 0..200 {
+        choices.push(ch.raw());
+    }
+    while choices.last() == Some(&0) {
+        choices.pop();
+    }
+    Case { ty, name: TYPES[ty].0.to_string(), choices }
+}
+
+/// libFuzzer bridge for the packed-scalars part.
+pub fn fuzz_gen_pack(ch: &mut Choices) -> PackCase {
+    let mut choices = vec![];
+    for _ in 0..400 {
+        choices.push(ch.raw());
+    }
+    while choices.last() == Some(&0) {
+        choices.pop();
+    }
+    PackCase { choices }
 }
